@@ -9,6 +9,7 @@ mod engine;
 mod engine_blob;
 mod engine_cabi;
 mod engine_io;
+mod engine_sched;
 mod json;
 mod prng;
 mod simio;
@@ -22,7 +23,7 @@ use std::process::{Command, Stdio};
 use std::time::{Duration, Instant};
 
 fn engines() -> Vec<Box<dyn Engine>> {
-    vec![Box::new(engine_io::IoEngine), Box::new(engine_blob::BlobEngine), Box::new(engine_cabi::CabiEngine)]
+    vec![Box::new(engine_io::IoEngine), Box::new(engine_blob::BlobEngine), Box::new(engine_cabi::CabiEngine), Box::new(engine_sched::SchedEngine)]
 }
 
 fn engine_for(id: &str) -> Option<Box<dyn Engine>> {
@@ -73,6 +74,11 @@ fn main() {
             let engine = engine_for(id).expect("engine");
             util::set_rlimit_as(12 << 30);
             supervisor::worker_main(engine.as_ref(), tier, seed, trace)
+        }
+        "aux" => {
+            let engine = engine_for(&args[2]).expect("engine");
+            util::set_rlimit_as(12 << 30);
+            engine.aux(&args[3..])
         }
         "replay" => replay_parent(&args, &root),
         "replay-exec" => replay_exec(&args),
